@@ -407,6 +407,16 @@ def curated():
     add(("sequence", ("just_void_or_done", A(0)), L))
     add(("then", "just_from"))
     add(("when_all", "just_from", L))
+    # trait soundness: an inline child next to a deferred one in every fan-out / sequencing adaptor (a `blocking` trait
+    # computed from one child only over-promises exactly here)
+    add(("stop_when", "just", LV))
+    add(("stop_when", "justv", LV))
+    add(("then", ("stop_when", "just", LV)))
+    add(("stop_when", L, "justv"))
+    add(("when_all", "just", L))
+    add(("when_any", "just", L))
+    add(("finally", "just", LV))
+    add(("sequence", LV, "justv"))
     add(("defer", L))
     add(("defer", ("when_all", L, L)))
     add(("let_value_with", L))
